@@ -20,7 +20,8 @@ here, and the model keeps that distinction with `Option Bytes` there:
   * computeHashFromAunts returns nil for "shape does not fit" and tests
     `leftHash == nil` on the value coming back from the recursion (which at
     total = 1 is the caller-supplied LeafHash itself);
-  * bytes.Equal treats nil and empty as equal (`bytesEqual`).
+  * bytes.Equal treats nil and empty as equal (`bytesEqual`), and `Verify` tests
+    `computedHash == nil` explicitly;
 Everywhere else a nil slice is only appended or measured, i.e. behaves as [].
 Core-only.
 -/
@@ -183,15 +184,21 @@ inductive VerifyErr where
   | total | index | leafHash | root
 deriving Repr, DecidableEq
 
-/-- `SimpleProof.Verify(rootHash, leaf)` with its four checks in order. -/
+/-- `SimpleProof.Verify(rootHash, leaf)` with its checks in order.  Since /repo
+commit 96b4d2262f the last check is
+`if computedHash == nil || !bytes.Equal(computedHash, rootHash)`: a nil computed
+hash (Index/Total/Aunts are not a position) never verifies, not even against a
+nil/empty root. -/
 def SimpleProof.verify (H : Bytes → Bytes) (sp : SimpleProof) (rootHash : Option Bytes) (leaf : Bytes) :
     Except VerifyErr Unit :=
   let lh := C25.leafHash H leaf
   if sp.total < 0 then .error .total
   else if sp.index < 0 then .error .index
   else if ¬ bytesEqual sp.leafHash (some lh) then .error .leafHash
-  else if ¬ bytesEqual (sp.computeRootHash H) rootHash then .error .root
-  else .ok ()
+  else
+    let computedHash := sp.computeRootHash H
+    if computedHash.isNone ∨ ¬ bytesEqual computedHash rootHash then .error .root
+    else .ok ()
 
 def maxAunts : Nat := 100
 def hashSize : Nat := 32   -- tmhash.Size
